@@ -222,7 +222,7 @@ def one_scenario(args):
     rng = random.Random('verify-%d-%d' % (seed, idx))
     root = tlc.scratch_dir('vt')
     try:
-        L = gen.random_layout(rng)
+        L = gen.random_layout(rng, dupnames=True, selfent=True)
         L.write(root)
         muts = []
         for _ in range(rng.choice([0, 0, 1, 1, 1, 2, 3])):
@@ -469,8 +469,15 @@ def one_tamper(args):
                 # entry recorded for the sub-Manifest must hold
                 L.mf[parent].append({'tag': 'MANIFEST', 'path': L.rel(mp, parent), 'size': 0,
                                      'ck': {}, 'sizeonly': True, 'ref': mp})
-            L.mf[parent].append({'tag': 'MANIFEST', 'path': L.rel(mp, parent), 'size': 0,
-                                 'ck': dict((h, '') for h in rng.choice(gen.HASHSETS[:4])), 'ref': mp})
+            if rng.random() < 0.08:
+                # the only reference lists nothing but hash names that cannot be computed here: the size alone
+                # is no hash chain
+                L.mf[parent].append({'tag': 'MANIFEST', 'path': L.rel(mp, parent), 'size': 0, 'unsup': True,
+                                     'ck': rng.choice([{'WHIRLPOOL': 'ab' * 64}, {'FOOHASH': '12' * 16},
+                                                       {'WHIRLPOOL': 'ab' * 64, 'STREEBOG999': 'cd' * 64}]), 'ref': mp})
+            else:
+                L.mf[parent].append({'tag': 'MANIFEST', 'path': L.rel(mp, parent), 'size': 0,
+                                     'ck': dict((h, '') for h in rng.choice(gen.HASHSETS[:4])), 'ref': mp})
         pal = gen.palette(rng)
         for k in range(depth + 1):
             for _ in range(rng.randrange(0, 3) if k < depth else rng.randrange(1, 3)):
